@@ -25,6 +25,7 @@ import (
 	authtypes "github.com/cosmos/cosmos-sdk/x/auth/types"
 	banktypes "github.com/cosmos/cosmos-sdk/x/bank/types"
 	minttypes "github.com/cosmos/cosmos-sdk/x/mint/types"
+	slashingtypes "github.com/cosmos/cosmos-sdk/x/slashing/types"
 	stakingtypes "github.com/cosmos/cosmos-sdk/x/staking/types"
 	"github.com/ethereum/go-ethereum/common"
 	"github.com/evmos/ethermint/crypto/ethsecp256k1"
@@ -153,6 +154,11 @@ func NewChain(seed int64, nVals int, appOpts map[string]interface{}) *Chain {
 		bankGenesis.Supply = bankGenesis.Supply.Add(sdk.NewCoin(stakingGenesis.Params.BondDenom, bondAmt))
 	}
 	bankGenesis.Balances = append(bankGenesis.Balances, balances...)
+	// the default genesis supply carries 4000 FX that no default balance holds (same as testutil/helpers)
+	bankGenesis.Balances = append(bankGenesis.Balances, banktypes.Balance{
+		Address: CosmosKey(seed, "genesis-extra", 0).Acc().String(),
+		Coins:   sdk.NewCoins(sdk.NewCoin(fxtypes.DefaultDenom, sdkmath.NewInt(4_000).MulRaw(1e18))),
+	})
 	bankGenesis.Balances = append(bankGenesis.Balances, banktypes.Balance{
 		Address: authtypes.NewModuleAddress(stakingtypes.BondedPoolName).String(),
 		Coins:   sdk.Coins{sdk.NewCoin(stakingGenesis.Params.BondDenom, bondAmt.MulRaw(int64(len(vals))))},
@@ -164,7 +170,6 @@ func NewChain(seed int64, nVals int, appOpts map[string]interface{}) *Chain {
 	cp := app.CustomGenesisConsensusParams().ToProto()
 	_, err = c.App.InitChain(&abci.RequestInitChain{
 		Time:            GenesisTime,
-		ChainId:         fxtypes.MainnetChainId,
 		ConsensusParams: &cp,
 		AppStateBytes:   stateBytes,
 		InitialHeight:   1,
@@ -183,7 +188,11 @@ func NewChain(seed int64, nVals int, appOpts map[string]interface{}) *Chain {
 	c.proposer = c.ValSet.Proposer.Address.Bytes()
 	c.Height = 0
 	c.Time = GenesisTime
-	c.Ctx = c.App.GetContextForFinalizeBlock(nil).WithProposer(c.proposer).WithBlockTime(c.Time).WithChainID(fxtypes.MainnetChainId)
+	c.Ctx = c.App.GetContextForFinalizeBlock(nil).WithProposer(c.proposer).WithBlockTime(c.Time)
+	for _, v := range c.commit.Votes {
+		info := slashingtypes.NewValidatorSigningInfo(sdk.ConsAddress(v.Validator.Address), 0, 0, time.Unix(0, 0), false, 0)
+		must(c.App.SlashingKeeper.SetValidatorSigningInfo(c.Ctx, sdk.ConsAddress(v.Validator.Address), info))
+	}
 	return c
 }
 
